@@ -61,7 +61,7 @@ def _mk_txn(desc, amount, fk, src, y, m, d):
     return {'description': desc, 'amount': amount, 'field': {'k': fk}, 'source': src, 'date': date(y, m, d)}
 
 
-def real_conditions(tname, dlen=3, slen=2, via='engine', gseed=0):
+def real_conditions(tname, dlen=3, slen=2, via='engine', gseed=0, refcheck=False):
     """Real MerchantEngine.match (or normalize_merchant through the cached engine) on a template whose pattern
     and threshold constants are symbolic, against the independent first-match oracle of harness.tmpl."""
     from harness import tmpl
@@ -105,6 +105,10 @@ def real_conditions(tname, dlen=3, slen=2, via='engine', gseed=0):
         else:
             exp = (True, winner.merchant, winner.category, winner.subcategory)
         ok = got == exp
+        if refcheck:
+            # ... and the rule conditions are true / false as the independent reference interpreter says (no tally code in the oracle)
+            w2, truth2 = tmpl.oracle_first_match_ref(eng, dict(txn), values)
+            ok = ok and w2 is winner and truth2 == truth
         if via == 'engine':
             ok = ok and got_rule is winner
             # rules whose condition is false have no influence / rules after the winner cannot change the result
@@ -345,7 +349,7 @@ def obligations(tier, seed):
     q = tier == 'quick'
     dl, sl = (2, 1) if q else (3, 2)
     for t in tnames:
-        obs.append(Obligation(id=f'real-{t}', factory='real_conditions', params={'tname': t, 'dlen': dl, 'slen': sl},
+        obs.append(Obligation(id=f'real-{t}', factory='real_conditions', params={'tname': t, 'dlen': dl, 'slen': sl, 'refcheck': True},
                               timeout=170 if q else 1500, group='real conditions',
                               bounds=f'template {t}: description <= {dl}, string constants/field/source <= {sl} ASCII chars, integer amount and thresholds, date in 2024-2025'))
     for t in (['letshadow', 'fields1', 'vars2'] if q else tnames):
@@ -353,7 +357,7 @@ def obligations(tier, seed):
                               timeout=170 if q else 1500, group='normalize_merchant, engine path',
                               bounds=f'template {t} through normalize_merchant with the cached engine; description <= {dl}, constants <= {sl}'))
     for t in list(_t.generated(8 if q else 120, seed)):
-        obs.append(Obligation(id=f'real-{t}', factory='real_conditions', params={'tname': t, 'dlen': dl, 'slen': sl, 'gseed': seed},
+        obs.append(Obligation(id=f'real-{t}', factory='real_conditions', params={'tname': t, 'dlen': dl, 'slen': sl, 'gseed': seed, 'refcheck': True},
                               timeout=170 if q else 1500, group='real conditions (generated rule files)',
                               bounds=f'generated rule file {t} (2-3 random rule blocks + the global variables they use, VERIF_SEED={seed}): description <= {dl}, constants <= {sl}'))
     for path in ['engine', 'legacy']:
